@@ -4,6 +4,8 @@ pub mod mapgen;
 pub mod rng;
 
 pub mod c02;
+pub mod c04;
+pub mod c07;
 pub mod c14;
 pub mod c15;
 pub mod c18;
